@@ -162,26 +162,25 @@ LateProgs == {
 
 \* a hash director over three backends (all pointing at the stub): which backend serves the request must not depend on
 \* comments in the backend declarations.  No prediction (the choice is a hash the specification does not model).
-StubBackend(n) == Backend(n, <<Prop("bprop", "host", Str("__HOST__", "\"__HOST__\"")), Prop("bprop", "port", Str("__PORT__", "\"__PORT__\"")),
-                               Prop("bprop", "ssl", Bool(FALSE))>>)
+\* (three stub servers, created once per harness process; each answers with its number in X-Backend)
+StubBackend(n, port) == Backend(n, <<Prop("bprop", "host", Str("__HOST__", "\"__HOST__\"")), Prop("bprop", "port", Str(port, "\"" \o port \o "\"")),
+                                     Prop("bprop", "ssl", Bool(FALSE))>>)
+DirMembers == <<"b1", "b2", "b3">>
 DirProg(dtype) ==
   [name |-> "director/" \o dtype,
-   ds |-> <<StubBackend("b1"), StubBackend("b2"), StubBackend("b3"),
-            Director("d1", dtype, <<Prop("dprop", "quorum", Postfix("%", Int("20", "20"))),
-                                    DBackend(<<DProp("backend", Id("b1")), DProp("weight", Int("1", "1"))>>),
-                                    DBackend(<<DProp("backend", Id("b2")), DProp("weight", Int("1", "1"))>>),
-                                    DBackend(<<DProp("backend", Id("b3")), DProp("weight", Int("1", "1"))>>)>>),
+   ds |-> <<StubBackend("b1", "__PORT__"), StubBackend("b2", "__PORT2__"), StubBackend("b3", "__PORT3__"),
+            Director("d1", dtype, [i \in 1..3 |-> DBackend(<<DProp("backend", Id(DirMembers[i]))>>
+                                                              \o (IF dtype = "chash" THEN <<DProp("id", Str(DirMembers[i], "\"" \o DirMembers[i] \o "\""))>>
+                                                                  ELSE <<DProp("weight", Int("1", "1"))>>))]),
             SubOf("recv", <<SetS(Id("req.backend"), "=", Id("d1")), Return(Id("pass"), "paren")>>),
-            SubOf("fetch", <<LogE(Id("beresp.backend.name"))>>)>>
+            SubOf("fetch", <<LogE(Id("beresp.http.X-Backend"))>>)>>
            \o (LET rest == SelectSeq(Others, LAMBDA o : o # "fetch") IN [i \in DOMAIN rest |-> SubOf(rest[i], <<>>)]),
    exec |-> TRUE, nd |-> 4, annot |-> FALSE, logs |-> <<>>, path |-> <<>>]
 
 ExecProgs ==
   {Exec(s, "fall") : s \in Segments} \cup {Exec(CHOOSE s \in Segments : s.name = "log", t) : t \in Terminals}
   \cup {Exec(CHOOSE s \in Segments : s.name = "if-else", t) : t \in {"pass", "restart"}}
-  \cup LateProgs
-\* DirProg is not part of the enumeration: Interpreter.ServeHTTP dereferences nil for these programs (no health
-\* state for the director's backends in this harness), so the pair comparison would be vacuous.
+  \cup LateProgs \cup {DirProg("hash"), DirProg("client"), DirProg("chash")}
 \* lint only: every statement and declaration kind of FmtDoc (most of them carry lint errors of their own:
 \* undefined variables and subroutines, type mismatches, missing macros - the "injected errors")
 UnitProgs == {[name |-> d.fam \o "/" \o d.focus, ds |-> d.ds, exec |-> FALSE, nd |-> Len(d.ds), annot |-> FALSE, logs |-> <<>>, path |-> <<>>] : d \in UnitDocs}
@@ -231,9 +230,22 @@ Decors(p) ==
   LET n == Cardinality(GapIdx(CatT(SubSeq(p.ds, 1, NDecorated(p)))))
       gs == GapSeq(ProgT(p))
       \* a comment; or - at positions on a line of their own - an empty line, or an empty line followed by a comment
+      \* statement positions: a comment there may be followed by code on the next line of the same subroutine
+      StmtKinds == {"set", "add", "unset", "remove", "log", "if", "switch", "call", "fcall", "declare", "return", "error", "esi", "restart",
+                    "synthetic", "synthetic64", "goto", "label", "block", "break", "fallthrough"}
       one(i) == {[at |-> i, m |-> m, sp |-> "plain"] : m \in Markers}
-                \cup (IF gs[i].c \in {"lead", "inner"}
+                \* block comments whose closing slash follows a run of asterisks, or that are nothing but asterisks
+                \cup {[at |-> i, m |-> "/*", sp |-> "stars2"], [at |-> i, m |-> "/*", sp |-> "tri"]}
+                \cup (IF gs[i].c = "lead" THEN {[at |-> i, m |-> "/*", sp |-> "stars3"], [at |-> i, m |-> "/*", sp |-> "stars4"],
+                                                 [at |-> i, m |-> "/*", sp |-> "bare"]} ELSE {})
+                \* an empty line, or an empty line followed by a comment - between statements AND between the tokens of a
+                \* statement (operands of a juxtaposed concatenation, arguments)
+                \cup (IF gs[i].c \in {"lead", "inner", "in"}
                       THEN {[at |-> i, m |-> "#", sp |-> "blankonly"], [at |-> i, m |-> "//", sp |-> "blankbefore"]} ELSE {})
+                \* line comments as long as common buffer sizes whose tail is valid VCL (`... log "activated";`)
+                \cup (IF gs[i].c = "lead" /\ gs[i].n \in StmtKinds
+                      THEN {[at |-> i, m |-> m, sp |-> l] : m \in {"#", "//"}, l \in {"long4095", "long4096", "long4097", "long8192", "long65536"}}
+                      ELSE {})
   IN {<<c>> : c \in UNION {one(i) : i \in 1..n}}
      \cup (IF MaxDecor >= 2
            THEN UNION {{<<c1, c2>> : c1 \in one(ij[1]), c2 \in one(ij[2])} : ij \in {q \in (1..n) \X (1..n) : q[1] < q[2] /\ q[2] <= q[1] + 2}}
